@@ -80,10 +80,11 @@ VARIABLES sc,          \* the scenario (never changes)
           gi, srcClosed, pool, wg, failed, coll, collClosed, outClosed, doneClosed,
           pcWrote, pcBuf, retErr, cancelSt, finSt, ctxDone,
           res, cval, cok, cpanic,
-          mapped, mk, rcnt, recv, dup, rk
+          mapped, mk, rcnt, recv, dup, rk,
+          eacc         \* history variable: retErr at the moment the caller's select accepted a reducer value
 
 vars == <<sc, pc, cret, fret, pval, gi, srcClosed, pool, wg, failed, coll, collClosed, outClosed, doneClosed,
-          pcWrote, pcBuf, retErr, cancelSt, finSt, ctxDone, res, cval, cok, cpanic, mapped, mk, rcnt, recv, dup, rk>>
+          pcWrote, pcBuf, retErr, cancelSt, finSt, ctxDone, res, cval, cok, cpanic, mapped, mk, rcnt, recv, dup, rk, eacc>>
 
 NoRes == [kind |-> "none", val |-> ""]
 RNextW(k) == IF k < sc.rw THEN "r_wchk" ELSE "r_end"
@@ -108,14 +109,14 @@ Init ==
   /\ ctxDone = (sc.ctx = "before")
   /\ res = NoRes /\ cval = "" /\ cok = FALSE /\ cpanic = ""
   /\ mapped = [i \in 1..MaxItems |-> 0] /\ mk = [i \in 1..MaxItems |-> 0]
-  /\ rcnt = 0 /\ recv = {} /\ dup = FALSE /\ rk = 0
+  /\ rcnt = 0 /\ recv = {} /\ dup = FALSE /\ rk = 0 /\ eacc = ""
 
 Go(p, l) == pc' = [pc EXCEPT ![p] = l]
 MAfterWrite(i, k) == IF k = WTarget(i) THEN "m_exit" ELSE "m_wchk"
 
 \* ---------------------------------------------------------------- context
 CtxFire == /\ sc.ctx = "during" /\ ~ctxDone /\ ctxDone' = TRUE
-           /\ UNCHANGED <<sc, pc, cret, fret, pval, gi, srcClosed, pool, wg, failed, coll, collClosed, outClosed, doneClosed,
+           /\ UNCHANGED <<sc, eacc, pc, cret, fret, pval, gi, srcClosed, pool, wg, failed, coll, collClosed, outClosed, doneClosed,
                           pcWrote, pcBuf, retErr, cancelSt, finSt, res, cval, cok, cpanic, mapped, mk, rcnt, recv, dup, rk>>
 
 \* ---------------------------------------------------------------- source (cap 0)
@@ -139,7 +140,7 @@ SrcHandoff(p) ==
             /\ cret' = [cret EXCEPT ![gi] = "m_exit"]
             /\ pval' = [pval EXCEPT ![gi] = IF sc.mb[gi] \in {"panic", "latepanic"} THEN PanOf(gi) ELSE ""]
        ELSE UNCHANGED <<wg, mapped, pc, cret, pval>>         \* drained
-  /\ UNCHANGED <<sc, fret, srcClosed, pool, failed, coll, collClosed, outClosed, doneClosed,
+  /\ UNCHANGED <<sc, eacc, fret, srcClosed, pool, failed, coll, collClosed, outClosed, doneClosed,
                  pcWrote, pcBuf, retErr, cancelSt, finSt, ctxDone, res, cval, cok, cpanic, mk, rcnt, recv, dup, rk>>
 
 SrcClosedRecv(p) ==
@@ -147,7 +148,7 @@ SrcClosedRecv(p) ==
   /\ pc' = [pc EXCEPT ![p] = CASE pc[p] = "d_recv" -> "d_wait" [] pc[p] = "d_drain" -> "done" [] OTHER -> "f_once"]
   /\ pool' = IF pc[p] = "d_recv" THEN pool - 1 ELSE pool     \* `<-pool` before returning (nobody else looks at it any more)
   /\ fret' = IF pc[p] = "x_drain" THEN [fret EXCEPT ![p] = "x_ret"] ELSE fret
-  /\ UNCHANGED <<sc, cret, pval, gi, srcClosed, wg, failed, coll, collClosed, outClosed, doneClosed,
+  /\ UNCHANGED <<sc, eacc, cret, pval, gi, srcClosed, wg, failed, coll, collClosed, outClosed, doneClosed,
                  pcWrote, pcBuf, retErr, cancelSt, finSt, ctxDone, res, cval, cok, cpanic, mapped, mk, rcnt, recv, dup, rk>>
 
 \* the user's generate function returns or panics
@@ -155,12 +156,12 @@ GenEnd ==
   /\ pc[Gen] = "g_send" /\ gi > GenLimit
   /\ IF sc.genk >= 0 THEN /\ pval' = [pval EXCEPT ![Gen] = "PGEN"] /\ Go(Gen, "g_cas")
                      ELSE /\ UNCHANGED pval /\ Go(Gen, "g_close")
-  /\ UNCHANGED <<sc, cret, fret, gi, srcClosed, pool, wg, failed, coll, collClosed, outClosed, doneClosed,
+  /\ UNCHANGED <<sc, eacc, cret, fret, gi, srcClosed, pool, wg, failed, coll, collClosed, outClosed, doneClosed,
                  pcWrote, pcBuf, retErr, cancelSt, finSt, ctxDone, res, cval, cok, cpanic, mapped, mk, rcnt, recv, dup, rk>>
 
 GenClose ==
   /\ pc[Gen] = "g_close" /\ srcClosed' = TRUE /\ Go(Gen, "done")
-  /\ UNCHANGED <<sc, cret, fret, pval, gi, pool, wg, failed, coll, collClosed, outClosed, doneClosed,
+  /\ UNCHANGED <<sc, eacc, cret, fret, pval, gi, pool, wg, failed, coll, collClosed, outClosed, doneClosed,
                  pcWrote, pcBuf, retErr, cancelSt, finSt, ctxDone, res, cval, cok, cpanic, mapped, mk, rcnt, recv, dup, rk>>
 
 \* ---------------------------------------------------------------- onceChan.write
@@ -173,14 +174,14 @@ Cas(p) ==   \* as is: atomic.CompareAndSwapInt32(&c.wrote, 0, 1), the winner the
   /\ ~Repair /\ pc[p] \in CasPcs
   /\ IF pcWrote THEN /\ Go(p, AfterPw(pc[p])) /\ UNCHANGED pcWrote
                 ELSE /\ pcWrote' = TRUE /\ Go(p, PwOf(pc[p]))
-  /\ UNCHANGED <<sc, cret, fret, pval, gi, srcClosed, pool, wg, failed, coll, collClosed, outClosed, doneClosed,
+  /\ UNCHANGED <<sc, eacc, cret, fret, pval, gi, srcClosed, pool, wg, failed, coll, collClosed, outClosed, doneClosed,
                  pcBuf, retErr, cancelSt, finSt, ctxDone, res, cval, cok, cpanic, mapped, mk, rcnt, recv, dup, rk>>
 
 PwBuffered(p) ==   \* Repair: select { case c.channel <- v: default: } on a channel of capacity 1 - one atomic step
   /\ Repair /\ pc[p] \in CasPcs
   /\ pcBuf' = IF pcBuf = <<>> THEN <<pval[p]>> ELSE pcBuf
   /\ Go(p, AfterPw(pc[p]))
-  /\ UNCHANGED <<sc, cret, fret, pval, gi, srcClosed, pool, wg, failed, coll, collClosed, outClosed, doneClosed,
+  /\ UNCHANGED <<sc, eacc, cret, fret, pval, gi, srcClosed, pool, wg, failed, coll, collClosed, outClosed, doneClosed,
                  pcWrote, retErr, cancelSt, finSt, ctxDone, res, cval, cok, cpanic, mapped, mk, rcnt, recv, dup, rk>>
 
 \* the caller's select takes the panic value (as is: rendezvous with the blocked writer q)
@@ -191,7 +192,7 @@ CallerRecvPanic(q) ==
             /\ pc' = [pc EXCEPT ![Caller] = "c_drainout", ![q] = AfterPw(pc[q])]
        ELSE /\ res' = Pan(pval[q]) /\ UNCHANGED cpanic
             /\ pc' = [pc EXCEPT ![Caller] = "done", ![q] = AfterPw(pc[q])]
-  /\ UNCHANGED <<sc, cret, fret, pval, gi, srcClosed, pool, wg, failed, coll, collClosed, outClosed, doneClosed,
+  /\ UNCHANGED <<sc, eacc, cret, fret, pval, gi, srcClosed, pool, wg, failed, coll, collClosed, outClosed, doneClosed,
                  pcWrote, pcBuf, retErr, cancelSt, finSt, ctxDone, cval, cok, mapped, mk, rcnt, recv, dup, rk>>
 
 CallerTakePanic ==   \* Repair: buffered value; also the extra polls c_prio / e_prio
@@ -200,26 +201,26 @@ CallerTakePanic ==   \* Repair: buffered value; also the extra polls c_prio / e_
   /\ IF pc[Caller] \in {"c_select", "c_prio"}
        THEN /\ cpanic' = Head(pcBuf) /\ UNCHANGED res /\ Go(Caller, "c_drainout")
        ELSE /\ res' = Pan(Head(pcBuf)) /\ UNCHANGED cpanic /\ Go(Caller, "done")
-  /\ UNCHANGED <<sc, cret, fret, pval, gi, srcClosed, pool, wg, failed, coll, collClosed, outClosed, doneClosed,
+  /\ UNCHANGED <<sc, eacc, cret, fret, pval, gi, srcClosed, pool, wg, failed, coll, collClosed, outClosed, doneClosed,
                  pcWrote, retErr, cancelSt, finSt, ctxDone, cval, cok, mapped, mk, rcnt, recv, dup, rk>>
 
 PrioEmpty ==   \* Repair: the poll finds nothing
   /\ Repair /\ pc[Caller] \in {"c_prio", "e_prio"} /\ pcBuf = <<>>
   /\ IF pc[Caller] = "c_prio" THEN /\ Go(Caller, "c_eval") /\ UNCHANGED res
                               ELSE /\ Go(Caller, "done") /\ res' = Ret("NIL")
-  /\ UNCHANGED <<sc, cret, fret, pval, gi, srcClosed, pool, wg, failed, coll, collClosed, outClosed, doneClosed,
+  /\ UNCHANGED <<sc, eacc, cret, fret, pval, gi, srcClosed, pool, wg, failed, coll, collClosed, outClosed, doneClosed,
                  pcWrote, pcBuf, retErr, cancelSt, finSt, ctxDone, cval, cok, cpanic, mapped, mk, rcnt, recv, dup, rk>>
 
 \* ---------------------------------------------------------------- caller (MapReduce family)
 CallerCtx ==   \* case <-ctx.Done(): cancel(context.DeadlineExceeded)
   /\ pc[Caller] = "c_select" /\ ctxDone
   /\ Go(Caller, "x_once") /\ cret' = [cret EXCEPT ![Caller] = "c_ctxret"]
-  /\ UNCHANGED <<sc, fret, pval, gi, srcClosed, pool, wg, failed, coll, collClosed, outClosed, doneClosed,
+  /\ UNCHANGED <<sc, eacc, fret, pval, gi, srcClosed, pool, wg, failed, coll, collClosed, outClosed, doneClosed,
                  pcWrote, pcBuf, retErr, cancelSt, finSt, ctxDone, res, cval, cok, cpanic, mapped, mk, rcnt, recv, dup, rk>>
 
 CallerCtxRet ==
   /\ pc[Caller] = "c_ctxret" /\ res' = Err("DEADLINE") /\ Go(Caller, IF RepairO THEN "done" ELSE "c_defer")
-  /\ UNCHANGED <<sc, cret, fret, pval, gi, srcClosed, pool, wg, failed, coll, collClosed, outClosed, doneClosed,
+  /\ UNCHANGED <<sc, eacc, cret, fret, pval, gi, srcClosed, pool, wg, failed, coll, collClosed, outClosed, doneClosed,
                  pcWrote, pcBuf, retErr, cancelSt, finSt, ctxDone, cval, cok, cpanic, mapped, mk, rcnt, recv, dup, rk>>
 
 \* output (cap 0): the reducer's guarded send meets one of the caller's three receive sites
@@ -228,12 +229,13 @@ OutHandoff ==
   /\ rk' = rk + 1
   /\ CASE pc[Caller] = "c_select" ->
             /\ cval' = "R" \o ToString(rk + 1) /\ cok' = TRUE /\ UNCHANGED res
+            /\ eacc' = retErr      \* history: what cancel had recorded when the value was accepted
             /\ pc' = [pc EXCEPT ![Caller] = IF Repair THEN "c_prio" ELSE "c_eval", ![Red] = RNextW(rk + 1)]
        [] pc[Caller] = "c_drainout" ->
-            /\ UNCHANGED <<cval, cok, res>>
+            /\ UNCHANGED <<cval, cok, res, eacc>>
             /\ pc' = [pc EXCEPT ![Red] = RNextW(rk + 1)]
        [] OTHER ->    \* deferred `for range output { panic(...) }`
-            /\ UNCHANGED <<cval, cok>> /\ res' = Pan("FOREIGN")
+            /\ UNCHANGED <<cval, cok, eacc>> /\ res' = Pan("FOREIGN")
             /\ pc' = [pc EXCEPT ![Caller] = "done", ![Red] = RNextW(rk + 1)]
   /\ UNCHANGED <<sc, cret, fret, pval, gi, srcClosed, pool, wg, failed, coll, collClosed, outClosed, doneClosed,
                  pcWrote, pcBuf, retErr, cancelSt, finSt, ctxDone, cpanic, mapped, mk, rcnt, recv, dup>>
@@ -246,7 +248,7 @@ OutClosedRecv ==
             /\ res' = Pan(cpanic) /\ UNCHANGED <<cval, cok>> /\ Go(Caller, IF RepairO THEN "done" ELSE "c_defer")
        [] OTHER ->
             /\ UNCHANGED <<cval, cok, res>> /\ Go(Caller, "done")
-  /\ UNCHANGED <<sc, cret, fret, pval, gi, srcClosed, pool, wg, failed, coll, collClosed, outClosed, doneClosed,
+  /\ UNCHANGED <<sc, eacc, cret, fret, pval, gi, srcClosed, pool, wg, failed, coll, collClosed, outClosed, doneClosed,
                  pcWrote, pcBuf, retErr, cancelSt, finSt, ctxDone, cpanic, mapped, mk, rcnt, recv, dup, rk>>
 
 CallerEval ==   \* retErr.Load() decides what the received value means
@@ -257,7 +259,7 @@ CallerEval ==   \* retErr.Load() decides what the received value means
             ELSE Err("NOOUTPUT")
   \* "outclose": the deferred double-write detection runs only after a value was taken as the result
   /\ Go(Caller, IF RepairO /\ (retErr # "" \/ ~cok) THEN "done" ELSE "c_defer")
-  /\ UNCHANGED <<sc, cret, fret, pval, gi, srcClosed, pool, wg, failed, coll, collClosed, outClosed, doneClosed,
+  /\ UNCHANGED <<sc, eacc, cret, fret, pval, gi, srcClosed, pool, wg, failed, coll, collClosed, outClosed, doneClosed,
                  pcWrote, pcBuf, retErr, cancelSt, finSt, ctxDone, cval, cok, cpanic, mapped, mk, rcnt, recv, dup, rk>>
 
 \* ---------------------------------------------------------------- caller (ForEach)
@@ -265,7 +267,7 @@ ForEachCollClosed ==
   /\ pc[Caller] = "e_select" /\ collClosed
   /\ IF Repair THEN /\ Go(Caller, "e_prio") /\ UNCHANGED res
                ELSE /\ Go(Caller, "done") /\ res' = Ret("NIL")
-  /\ UNCHANGED <<sc, cret, fret, pval, gi, srcClosed, pool, wg, failed, coll, collClosed, outClosed, doneClosed,
+  /\ UNCHANGED <<sc, eacc, cret, fret, pval, gi, srcClosed, pool, wg, failed, coll, collClosed, outClosed, doneClosed,
                  pcWrote, pcBuf, retErr, cancelSt, finSt, ctxDone, cval, cok, cpanic, mapped, mk, rcnt, recv, dup, rk>>
 
 \* ---------------------------------------------------------------- cancel / finish (sync.Once each)
@@ -273,78 +275,78 @@ XOnce(p) ==
   /\ pc[p] = "x_once" /\ cancelSt # "run"
   /\ IF cancelSt = "idle" THEN /\ cancelSt' = "run" /\ Go(p, "x_set")
                           ELSE /\ UNCHANGED cancelSt /\ Go(p, cret[p])
-  /\ UNCHANGED <<sc, cret, fret, pval, gi, srcClosed, pool, wg, failed, coll, collClosed, outClosed, doneClosed,
+  /\ UNCHANGED <<sc, eacc, cret, fret, pval, gi, srcClosed, pool, wg, failed, coll, collClosed, outClosed, doneClosed,
                  pcWrote, pcBuf, retErr, finSt, ctxDone, res, cval, cok, cpanic, mapped, mk, rcnt, recv, dup, rk>>
 
 XSet(p) ==
   /\ pc[p] = "x_set" /\ retErr' = MErr(p) /\ Go(p, "x_drain")
-  /\ UNCHANGED <<sc, cret, fret, pval, gi, srcClosed, pool, wg, failed, coll, collClosed, outClosed, doneClosed,
+  /\ UNCHANGED <<sc, eacc, cret, fret, pval, gi, srcClosed, pool, wg, failed, coll, collClosed, outClosed, doneClosed,
                  pcWrote, pcBuf, cancelSt, finSt, ctxDone, res, cval, cok, cpanic, mapped, mk, rcnt, recv, dup, rk>>
 
 XRet(p) ==
   /\ pc[p] = "x_ret" /\ cancelSt' = "done" /\ Go(p, cret[p])
-  /\ UNCHANGED <<sc, cret, fret, pval, gi, srcClosed, pool, wg, failed, coll, collClosed, outClosed, doneClosed,
+  /\ UNCHANGED <<sc, eacc, cret, fret, pval, gi, srcClosed, pool, wg, failed, coll, collClosed, outClosed, doneClosed,
                  pcWrote, pcBuf, retErr, finSt, ctxDone, res, cval, cok, cpanic, mapped, mk, rcnt, recv, dup, rk>>
 
 FOnce(p) ==
   /\ pc[p] = "f_once" /\ finSt # "run"
   /\ IF finSt = "idle" THEN /\ finSt' = "run" /\ Go(p, "f_cdone")
                        ELSE /\ UNCHANGED finSt /\ Go(p, fret[p])
-  /\ UNCHANGED <<sc, cret, fret, pval, gi, srcClosed, pool, wg, failed, coll, collClosed, outClosed, doneClosed,
+  /\ UNCHANGED <<sc, eacc, cret, fret, pval, gi, srcClosed, pool, wg, failed, coll, collClosed, outClosed, doneClosed,
                  pcWrote, pcBuf, retErr, cancelSt, ctxDone, res, cval, cok, cpanic, mapped, mk, rcnt, recv, dup, rk>>
 
 FCloseDone(p) ==
   /\ pc[p] = "f_cdone" /\ doneClosed' = TRUE
   /\ IF RepairO THEN /\ finSt' = "done" /\ Go(p, fret[p])    \* "outclose": the once closes `done` only
                  ELSE /\ UNCHANGED finSt /\ Go(p, "f_cout")
-  /\ UNCHANGED <<sc, cret, fret, pval, gi, srcClosed, pool, wg, failed, coll, collClosed, outClosed,
+  /\ UNCHANGED <<sc, eacc, cret, fret, pval, gi, srcClosed, pool, wg, failed, coll, collClosed, outClosed,
                  pcWrote, pcBuf, retErr, cancelSt, ctxDone, res, cval, cok, cpanic, mapped, mk, rcnt, recv, dup, rk>>
 
 RCloseOut ==   \* "outclose": the reducer goroutine, after the reducer function returned and `done` is closed
   /\ pc[Red] = "r_closeout" /\ outClosed' = TRUE /\ Go(Red, "done")
-  /\ UNCHANGED <<sc, cret, fret, pval, gi, srcClosed, pool, wg, failed, coll, collClosed, doneClosed,
+  /\ UNCHANGED <<sc, eacc, cret, fret, pval, gi, srcClosed, pool, wg, failed, coll, collClosed, doneClosed,
                  pcWrote, pcBuf, retErr, cancelSt, finSt, ctxDone, res, cval, cok, cpanic, mapped, mk, rcnt, recv, dup, rk>>
 
 CallerSeesDone ==   \* "outclose": case <-done in the caller's select / in its deferred loop
   /\ RepairO /\ doneClosed /\ pc[Caller] \in {"c_select", "c_defer"}
   /\ IF pc[Caller] = "c_select" THEN /\ cok' = FALSE /\ Go(Caller, IF Repair THEN "c_prio" ELSE "c_eval")
                                  ELSE /\ UNCHANGED cok /\ Go(Caller, "done")
-  /\ UNCHANGED <<sc, cret, fret, pval, gi, srcClosed, pool, wg, failed, coll, collClosed, outClosed, doneClosed,
+  /\ UNCHANGED <<sc, eacc, cret, fret, pval, gi, srcClosed, pool, wg, failed, coll, collClosed, outClosed, doneClosed,
                  pcWrote, pcBuf, retErr, cancelSt, finSt, ctxDone, res, cval, cpanic, mapped, mk, rcnt, recv, dup, rk>>
 
 WriteAbandon(p) ==   \* "outclose": the blocking send of guardedWriter gives up when done / ctx is signalled
   /\ RepairO /\ (doneClosed \/ ctxDone) /\ pc[p] \in {"m_wsend", "r_wsend"}
   /\ IF p = Red THEN /\ rk' = rk + 1 /\ Go(Red, RNextW(rk + 1)) /\ UNCHANGED mk
                  ELSE /\ mk' = [mk EXCEPT ![p] = @ + 1] /\ Go(p, MAfterWrite(p, mk[p] + 1)) /\ UNCHANGED rk
-  /\ UNCHANGED <<sc, cret, fret, pval, gi, srcClosed, pool, wg, failed, coll, collClosed, outClosed, doneClosed,
+  /\ UNCHANGED <<sc, eacc, cret, fret, pval, gi, srcClosed, pool, wg, failed, coll, collClosed, outClosed, doneClosed,
                  pcWrote, pcBuf, retErr, cancelSt, finSt, ctxDone, res, cval, cok, cpanic, mapped, rcnt, recv, dup>>
 
 FCloseOut(p) ==
   /\ pc[p] = "f_cout" /\ outClosed' = TRUE /\ finSt' = "done" /\ Go(p, fret[p])
-  /\ UNCHANGED <<sc, cret, fret, pval, gi, srcClosed, pool, wg, failed, coll, collClosed, doneClosed,
+  /\ UNCHANGED <<sc, eacc, cret, fret, pval, gi, srcClosed, pool, wg, failed, coll, collClosed, doneClosed,
                  pcWrote, pcBuf, retErr, cancelSt, ctxDone, res, cval, cok, cpanic, mapped, mk, rcnt, recv, dup, rk>>
 
 \* ---------------------------------------------------------------- executeMappers
 DLoop ==
   /\ pc[Disp] = "d_loop" /\ Go(Disp, IF failed > 0 THEN "d_wait" ELSE "d_select")
-  /\ UNCHANGED <<sc, cret, fret, pval, gi, srcClosed, pool, wg, failed, coll, collClosed, outClosed, doneClosed,
+  /\ UNCHANGED <<sc, eacc, cret, fret, pval, gi, srcClosed, pool, wg, failed, coll, collClosed, outClosed, doneClosed,
                  pcWrote, pcBuf, retErr, cancelSt, finSt, ctxDone, res, cval, cok, cpanic, mapped, mk, rcnt, recv, dup, rk>>
 
 DSelect ==
   /\ pc[Disp] = "d_select"
   /\ \/ /\ (ctxDone \/ doneClosed) /\ Go(Disp, "d_wait") /\ UNCHANGED pool
      \/ /\ pool < sc.workers /\ pool' = pool + 1 /\ Go(Disp, "d_recv")
-  /\ UNCHANGED <<sc, cret, fret, pval, gi, srcClosed, wg, failed, coll, collClosed, outClosed, doneClosed,
+  /\ UNCHANGED <<sc, eacc, cret, fret, pval, gi, srcClosed, wg, failed, coll, collClosed, outClosed, doneClosed,
                  pcWrote, pcBuf, retErr, cancelSt, finSt, ctxDone, res, cval, cok, cpanic, mapped, mk, rcnt, recv, dup, rk>>
 
 DWait ==
   /\ pc[Disp] = "d_wait" /\ wg = 0 /\ Go(Disp, "d_closecoll")
-  /\ UNCHANGED <<sc, cret, fret, pval, gi, srcClosed, pool, wg, failed, coll, collClosed, outClosed, doneClosed,
+  /\ UNCHANGED <<sc, eacc, cret, fret, pval, gi, srcClosed, pool, wg, failed, coll, collClosed, outClosed, doneClosed,
                  pcWrote, pcBuf, retErr, cancelSt, finSt, ctxDone, res, cval, cok, cpanic, mapped, mk, rcnt, recv, dup, rk>>
 
 DCloseColl ==
   /\ pc[Disp] = "d_closecoll" /\ collClosed' = TRUE /\ Go(Disp, "d_drain")
-  /\ UNCHANGED <<sc, cret, fret, pval, gi, srcClosed, pool, wg, failed, coll, outClosed, doneClosed,
+  /\ UNCHANGED <<sc, eacc, cret, fret, pval, gi, srcClosed, pool, wg, failed, coll, outClosed, doneClosed,
                  pcWrote, pcBuf, retErr, cancelSt, finSt, ctxDone, res, cval, cok, cpanic, mapped, mk, rcnt, recv, dup, rk>>
 
 \* ---------------------------------------------------------------- mapper of item i
@@ -353,7 +355,7 @@ Active(i) == pc[i] \notin {"idle", "done"}    \* goroutine of item i exists (it 
 MLate(i) ==
   /\ pc[i] = "m_late" /\ CallerReturned
   /\ Go(i, "m_fail")
-  /\ UNCHANGED <<sc, cret, fret, pval, gi, srcClosed, pool, wg, failed, coll, collClosed, outClosed, doneClosed,
+  /\ UNCHANGED <<sc, eacc, cret, fret, pval, gi, srcClosed, pool, wg, failed, coll, collClosed, outClosed, doneClosed,
                  pcWrote, pcBuf, retErr, cancelSt, finSt, ctxDone, res, cval, cok, cpanic, mapped, mk, rcnt, recv, dup, rk>>
 
 MWChk(i) ==   \* guardedWriter.Write: select { <-ctx.Done / <-done / default }
@@ -361,29 +363,29 @@ MWChk(i) ==   \* guardedWriter.Write: select { <-ctx.Done / <-done / default }
   /\ IF ctxDone \/ doneClosed
        THEN /\ mk' = [mk EXCEPT ![i] = @ + 1] /\ Go(i, MAfterWrite(i, mk[i] + 1))
        ELSE /\ UNCHANGED mk /\ Go(i, "m_wsend")
-  /\ UNCHANGED <<sc, cret, fret, pval, gi, srcClosed, pool, wg, failed, coll, collClosed, outClosed, doneClosed,
+  /\ UNCHANGED <<sc, eacc, cret, fret, pval, gi, srcClosed, pool, wg, failed, coll, collClosed, outClosed, doneClosed,
                  pcWrote, pcBuf, retErr, cancelSt, finSt, ctxDone, res, cval, cok, cpanic, mapped, rcnt, recv, dup, rk>>
 
 MWSend(i) ==  \* collector <- v
   /\ pc[i] = "m_wsend" /\ Len(coll) < CollCap /\ ~collClosed
   /\ coll' = Append(coll, i * 10 + mk[i] + 1)
   /\ mk' = [mk EXCEPT ![i] = @ + 1] /\ Go(i, MAfterWrite(i, mk[i] + 1))
-  /\ UNCHANGED <<sc, cret, fret, pval, gi, srcClosed, pool, wg, failed, collClosed, outClosed, doneClosed,
+  /\ UNCHANGED <<sc, eacc, cret, fret, pval, gi, srcClosed, pool, wg, failed, collClosed, outClosed, doneClosed,
                  pcWrote, pcBuf, retErr, cancelSt, finSt, ctxDone, res, cval, cok, cpanic, mapped, rcnt, recv, dup, rk>>
 
 MFail(i) ==
   /\ pc[i] = "m_fail" /\ failed' = failed + 1 /\ Go(i, "m_cas")
-  /\ UNCHANGED <<sc, cret, fret, pval, gi, srcClosed, pool, wg, coll, collClosed, outClosed, doneClosed,
+  /\ UNCHANGED <<sc, eacc, cret, fret, pval, gi, srcClosed, pool, wg, coll, collClosed, outClosed, doneClosed,
                  pcWrote, pcBuf, retErr, cancelSt, finSt, ctxDone, res, cval, cok, cpanic, mapped, mk, rcnt, recv, dup, rk>>
 
 MExit(i) ==
   /\ pc[i] = "m_exit" /\ wg' = wg - 1 /\ Go(i, "m_unpool")
-  /\ UNCHANGED <<sc, cret, fret, pval, gi, srcClosed, pool, failed, coll, collClosed, outClosed, doneClosed,
+  /\ UNCHANGED <<sc, eacc, cret, fret, pval, gi, srcClosed, pool, failed, coll, collClosed, outClosed, doneClosed,
                  pcWrote, pcBuf, retErr, cancelSt, finSt, ctxDone, res, cval, cok, cpanic, mapped, mk, rcnt, recv, dup, rk>>
 
 MUnpool(i) ==
   /\ pc[i] = "m_unpool" /\ pool' = pool - 1 /\ Go(i, "done")
-  /\ UNCHANGED <<sc, cret, fret, pval, gi, srcClosed, wg, failed, coll, collClosed, outClosed, doneClosed,
+  /\ UNCHANGED <<sc, eacc, cret, fret, pval, gi, srcClosed, wg, failed, coll, collClosed, outClosed, doneClosed,
                  pcWrote, pcBuf, retErr, cancelSt, finSt, ctxDone, res, cval, cok, cpanic, mapped, mk, rcnt, recv, dup, rk>>
 
 \* ---------------------------------------------------------------- reducer
@@ -397,20 +399,20 @@ RRecv ==
         /\ Go(Red, IF sc.rstop >= 0 /\ rcnt + 1 >= sc.rstop THEN RNextW(0) ELSE "r_recv")
      \/ /\ coll = <<>> /\ collClosed
         /\ UNCHANGED <<coll, recv, dup, rcnt>> /\ Go(Red, RNextW(0))
-  /\ UNCHANGED <<sc, cret, fret, pval, gi, srcClosed, pool, wg, failed, collClosed, outClosed, doneClosed,
+  /\ UNCHANGED <<sc, eacc, cret, fret, pval, gi, srcClosed, pool, wg, failed, collClosed, outClosed, doneClosed,
                  pcWrote, pcBuf, retErr, cancelSt, finSt, ctxDone, res, cval, cok, cpanic, mapped, mk, rk>>
 
 RWChk ==
   /\ pc[Red] = "r_wchk"
   /\ IF ctxDone \/ doneClosed THEN /\ rk' = rk + 1 /\ Go(Red, RNextW(rk + 1))
                               ELSE /\ UNCHANGED rk /\ Go(Red, "r_wsend")
-  /\ UNCHANGED <<sc, cret, fret, pval, gi, srcClosed, pool, wg, failed, coll, collClosed, outClosed, doneClosed,
+  /\ UNCHANGED <<sc, eacc, cret, fret, pval, gi, srcClosed, pool, wg, failed, coll, collClosed, outClosed, doneClosed,
                  pcWrote, pcBuf, retErr, cancelSt, finSt, ctxDone, res, cval, cok, cpanic, mapped, mk, rcnt, recv, dup>>
 
 RSendClosed ==   \* output was closed by finish() after the check: "send on closed channel" in the reducer goroutine
   /\ pc[Red] = "r_wsend" /\ outClosed
   /\ pval' = [pval EXCEPT ![Red] = "RT"] /\ Go(Red, "r_defer")
-  /\ UNCHANGED <<sc, cret, fret, gi, srcClosed, pool, wg, failed, coll, collClosed, outClosed, doneClosed,
+  /\ UNCHANGED <<sc, eacc, cret, fret, gi, srcClosed, pool, wg, failed, coll, collClosed, outClosed, doneClosed,
                  pcWrote, pcBuf, retErr, cancelSt, finSt, ctxDone, res, cval, cok, cpanic, mapped, mk, rcnt, recv, dup, rk>>
 
 REnd ==
@@ -419,13 +421,13 @@ REnd ==
        [] sc.rend = "panic" -> /\ Go(Red, "r_defer") /\ pval' = [pval EXCEPT ![Red] = "PRED"] /\ UNCHANGED cret
        [] sc.rend = "latepanic" -> /\ Go(Red, "r_late") /\ UNCHANGED <<pval, cret>>
        [] OTHER -> /\ Go(Red, "x_once") /\ cret' = [cret EXCEPT ![Red] = "r_defer"] /\ UNCHANGED pval
-  /\ UNCHANGED <<sc, fret, gi, srcClosed, pool, wg, failed, coll, collClosed, outClosed, doneClosed,
+  /\ UNCHANGED <<sc, eacc, fret, gi, srcClosed, pool, wg, failed, coll, collClosed, outClosed, doneClosed,
                  pcWrote, pcBuf, retErr, cancelSt, finSt, ctxDone, res, cval, cok, cpanic, mapped, mk, rcnt, recv, dup, rk>>
 
 RLate ==
   /\ pc[Red] = "r_late" /\ CallerReturned
   /\ Go(Red, "r_defer") /\ pval' = [pval EXCEPT ![Red] = "PRED"]
-  /\ UNCHANGED <<sc, cret, fret, gi, srcClosed, pool, wg, failed, coll, collClosed, outClosed, doneClosed,
+  /\ UNCHANGED <<sc, eacc, cret, fret, gi, srcClosed, pool, wg, failed, coll, collClosed, outClosed, doneClosed,
                  pcWrote, pcBuf, retErr, cancelSt, finSt, ctxDone, res, cval, cok, cpanic, mapped, mk, rcnt, recv, dup, rk>>
 
 RDefer ==   \* drain(collector); then recover -> panicChan.write; then finish()
@@ -434,12 +436,12 @@ RDefer ==   \* drain(collector); then recover -> panicChan.write; then finish()
      \/ /\ coll = <<>> /\ collClosed /\ UNCHANGED coll
         /\ IF pval[Red] # "" THEN /\ Go(Red, "r_cas") /\ UNCHANGED fret
                              ELSE /\ Go(Red, "f_once") /\ fret' = [fret EXCEPT ![Red] = RAfterFinish]
-  /\ UNCHANGED <<sc, cret, pval, gi, srcClosed, pool, wg, failed, collClosed, outClosed, doneClosed,
+  /\ UNCHANGED <<sc, eacc, cret, pval, gi, srcClosed, pool, wg, failed, collClosed, outClosed, doneClosed,
                  pcWrote, pcBuf, retErr, cancelSt, finSt, ctxDone, res, cval, cok, cpanic, mapped, mk, rcnt, recv, dup, rk>>
 
 RFinish ==
   /\ pc[Red] = "r_finish" /\ Go(Red, "f_once") /\ fret' = [fret EXCEPT ![Red] = RAfterFinish]
-  /\ UNCHANGED <<sc, cret, pval, gi, srcClosed, pool, wg, failed, coll, collClosed, outClosed, doneClosed,
+  /\ UNCHANGED <<sc, eacc, cret, pval, gi, srcClosed, pool, wg, failed, coll, collClosed, outClosed, doneClosed,
                  pcWrote, pcBuf, retErr, cancelSt, finSt, ctxDone, res, cval, cok, cpanic, mapped, mk, rcnt, recv, dup, rk>>
 
 \* ----------------------------------------------------------------
@@ -471,6 +473,9 @@ ResultOK == CallerReturned => MapOut(sc.api, res) \in Outcomes(sc) \cup Tolerate
 \* two panics race, the loser of the CAS carries on as if its panic had been delivered, and the caller's select
 \* may then take `output` although the winner is offering its panic (the winner stays blocked: LeakOnlyByPanicWrite)
 ResultOKAsIs == (CallerReturned /\ ~BlockedOnPanicWrite) => MapOut(sc.api, res) \in Outcomes(sc) \cup Tolerated
+\* "cancel(err) makes the call return that error": a reducer value that the caller accepted AFTER a cancel had
+\* recorded its error is not returned as the result (the caller consults the recorded error after receiving)
+OrderOK == (CallerReturned /\ eacc # "") => res.kind # "ret"
 \* never more than `workers` mapper goroutines exist (so never more than that inside the user's function)
 Bounded == Cardinality({i \in 1..MaxItems : Active(i)}) <= sc.workers
 \* no item mapped twice, no value delivered twice, nothing delivered that was not written
